@@ -165,7 +165,7 @@ func buildCases() []kase {
 				if len(f) != 2 {
 					continue
 				}
-				emit(kase{stream: "corpus", plan: f[0], root: f[1], alias: true})
+				emit(kase{stream: "corpus", plan: f[0], root: f[1]}) // curated: always executed
 			}
 		}
 	}
